@@ -156,7 +156,9 @@ macro_rules! do_text_token_tok {
         do_each!($i,
            span => input!(),
            frag => text_token!($text_token),
-           _ => either!(whitespace, comment),
+           // Only look ahead. A comment that directly follows the keyword
+           // has to reach the tokenize loop or it is lost to the comment map.
+           _ => peek!(either!(whitespace, comment)),
            (Token {
                typ: $type,
                pos: Position::from(&span),
